@@ -195,19 +195,7 @@ func runC06(c *an.Ctx) {
 	c.Min("C06.b", "flush calls in the closure", len(fcs), 1)
 	fc := fcs[0]
 	fErr := ct.Of(fc)
-	nReset := 0
-	an.Instrs(closure, func(in ssa.Instruction) {
-		call, isCall := in.(*ssa.Call)
-		if !isCall {
-			return
-		}
-		if cal := an.StaticCallee(&call.Call); cal != nil && an.FuncName(cal) == "store.(*batch).Reset" {
-			nReset++
-			fs := cf.AtInstr(call)
-			c.Check(fs.Has(an.EQ(fErr, "nil")), "C06.b", "reset-after-success", "the pending batch is cleared only after the flush of its content returned nil", closure, call, "", fs)
-		}
-	})
-	c.Min("C06.b", "pending resets", nReset, 1)
+	checkResetAfterSuccess(c, closure, flush, fc)
 	// what is flushed is the whole pending batch
 	okAll := false
 	if sl, isSl := fc.Call.Args[2].(ssa.Value); isSl {
